@@ -112,5 +112,11 @@ CLAIMED["C17"] = dict(
     note="Trusted: the documented table/marker list frozen from the property text and the module docstring; audited readers listed in AUDITED_READERS.",
 )
 
+CLAIMED["C16"] = dict(
+    technique="finite-domain abstract interpretation of inject_payload's insertion arm over an abstract zip archive (opaque member records incl. an empty member and a look-alike name; opens/reads/writes/renames/removes and the injection call recorded), plus structural rules for the member predicate and the per-wrapper parse",
+    level="Archive-level clauses only, explicitly partial: every member of the input archive is written once, in order, under the same name and byte-verbatim except the model pickle, which is the re-serialisation after exactly one injection of the payload; the member replaced is the member parsed; the input is only read unless overwrite is requested, in which case the output is renamed onto it and no stray output remains; the parsed pickle is per wrapper. That loading runs the payload exactly once and reconstructs an equal model (tensor/storage integrity, zip metadata) needs torch at run time and is NOT claimed.",
+    note="Trusted: sa/minieval.py interpreting the method's own source; the seven-member abstract archive exercises every relation the loop body can distinguish (is/ is not the model pickle, empty/non-empty, look-alike suffix).",
+)
+
 _NOT_YET = "checker not built yet in this session (planned per DESIGN.md section 3); nothing is claimed until it exists"
 NOT_APPLICABLE = {p: _NOT_YET for p in [f"C{i:02d}" for i in range(1, 20)]}
